@@ -213,6 +213,7 @@ class MibCompiler(object):
         lookedUpMibs = set()
         brokenMibImports = {}
         parsedFiles = set()
+        sourcesAsked = {}
 
         while mibsToParse or brokenMibImports:
             if not mibsToParse:
@@ -242,8 +243,12 @@ class MibCompiler(object):
             # has a source failed on this name (not: on a module of that name)
             sourceFailed = False
 
-            for source in self._sources:
+            # a name that has been looked up as a file name goes on, as a
+            # module name, where that search ended
+            for source in self._sources[sourcesAsked.get(mibname, 0):]:
                 debug.logger & debug.flagCompiler and debug.logger('trying source %s' % source)
+
+                sourcesAsked[mibname] = sourcesAsked.get(mibname, 0) + 1
 
                 try:
                     fileInfo, fileData = source.getData(mibname)
